@@ -634,8 +634,8 @@ func ruleBM25Deltas(r *Run, rule string, k *textKind) {
 				return
 			}
 			bo, ok := iff.Cond.(*ssa.BinOp)
-			if !ok || !strings.Contains(c2.S(bo.X), "Load(P0.numDocs)") {
-				return
+			if !ok || (!strings.Contains(c2.S(bo.X), "Load(P0.numDocs)") && !strings.Contains(c2.S(bo.X), "atomic.Uint32).Add(P0.numDocs,")) {
+				return // (the value Add hands back is the count after the update)
 			}
 			k0, isK := bo.Y.(*ssa.Const)
 			if !isK || k0.Value == nil {
